@@ -405,9 +405,10 @@ PROPS["C06"] = {
             "and workload: 2..16 goroutines x 5..40 transactions each on one shared WAF over 2..5 requests, 0..2 goroutines building and "
             "closing further WAFs of the same configuration meanwhile, GOMAXPROCS in {2,4,16}; binary built with -race (thorough: also with "
             "-tags coraza.rule.multiphase_evaluation); oracle = no race report (GORACE halt_on_error), no panic, no deadlock (120 s), every "
-            "concurrent transaction's canonical outcome equals the outcome of the same request run alone on a fresh WAF; non-trivial = at "
+            "concurrent transaction's canonical outcome equals the outcome of the same request run alone on a fresh WAF, and the shared serial "
+            "audit log holds one whole JSON record per line and one line per transaction; non-trivial = at "
             "least two transactions were in flight together (measured)",
-    "essential": {"all": ["overlap-observed", "rule-with-spare-exception-capacity", "runtime-target-exclusion", "shared-pm", "chain", "concurrent-waf-builds", "audit-index-write-fails", "logger-with-context-fields"]},
+    "essential": {"all": ["overlap-observed", "rule-with-spare-exception-capacity", "runtime-target-exclusion", "shared-pm", "chain", "concurrent-waf-builds", "audit-index-write-fails", "logger-with-context-fields", "shared-serial-audit-log-checked"]},
     "assumptions": COMMON_ASSUME + [
         "the Go scheduler is not controlled: the race detector reports happens-before violations on the paths the workload drives, not on all interleavings",
         "a data race aborts the process; the workload being run is written to disk first and becomes the replay file together with the shard log",
